@@ -23,16 +23,20 @@ add("C18.reader.srt", "UnboundLocalError@srt/reader.py:to_model",
     "when the first text line arrives",
     {"fmt": "srt", "text": TC},
     "small: initialise subtitle_text = \"\" (and push current_p) when the time code is accepted, srt/reader.py lines 216-232; 2-3 lines")
-add("C18.reader.srt", "TypeError@model.py:push_child",
+add("C18.reader.srt", "TypeError@model.py:Div.push_child",
     "SRT reader: a stray end tag moves the parser's parent above the paragraph (handle_endtag does parent = parent.parent() unconditionally); the next "
     "text is then pushed into the div -> TypeError('Children of body must be P instances')",
     {"fmt": "srt", "text": TC + "</b>\n</b>\n"},
     "small: in _TextParser.handle_endtag (srt/reader.py line 89) ignore the end tag when self.parent is the paragraph; 2 lines")
-add("C18.reader.srt", "AttributeError@srt/reader.py:handle_endtag",
+add("C18.reader.srt", "TypeError@model.py:Body.push_child",
+    "SRT reader: two stray end tags move the parent to the body; the next text is pushed into the body -> TypeError('Children of body must be div instances')",
+    {"fmt": "srt", "text": TC + "</b></b>a\n"},
+    "same 2-line fix as the stray-end-tag TypeError (srt/reader.py line 89)")
+add("C18.reader.srt", "AttributeError@srt/reader.py:_TextParser.handle_endtag",
     "SRT reader: four or more stray end tags walk the parent chain p -> div -> body -> None; the next end tag calls None.parent()",
     {"fmt": "srt", "text": TC + "</b></b></b></b>\n"},
     "same 2-line fix as the stray-end-tag TypeError (srt/reader.py line 89)")
-add("C18.reader.srt", "AttributeError@srt/reader.py:handle_data",
+add("C18.reader.srt", "AttributeError@srt/reader.py:_TextParser.handle_data",
     "SRT reader: three stray end tags followed by text: the parent is None when handle_data runs",
     {"fmt": "srt", "text": TC + "</b></b></b>x\n"},
     "same 2-line fix as the stray-end-tag TypeError (srt/reader.py line 89)")
@@ -51,41 +55,50 @@ add("C18.reader.vtt", "UnboundLocalError@vtt/reader.py:to_model",
     "WebVTT reader: a cue with no text line (timing line followed by a blank line or end of file) raises UnboundLocalError on subtitle_text",
     {"fmt": "vtt", "text": "WEBVTT\n00:00:01.002 --> 00:00:03.004\n"},
     "small: initialise subtitle_text = \"\" when the timing line is accepted (vtt/reader.py lines 510-520); 2-3 lines")
-add("C18.reader.vtt", "TypeError@model.py:push_child",
+add("C18.reader.vtt", "TypeError@model.py:Div.push_child",
     "WebVTT reader: a stray end tag moves the parent above the paragraph (_handle_endtag always does parent = parent.parent()); the following text span is "
     "pushed into the div -> TypeError",
     {"fmt": "vtt", "text": VC + "</b>\nmiddle\n"},
     "small: ignore an end tag when self.parent is the cue paragraph (vtt/reader.py line 161-170); 2 lines")
-add("C18.reader.vtt", "AttributeError@vtt/reader.py:_handle_endtag",
+add("C18.reader.vtt", "TypeError@model.py:Body.push_child",
+    "WebVTT reader: two stray end tags move the parent to the body; the next text span is pushed into the body -> TypeError",
+    {"fmt": "vtt", "text": VC + "</b></b>a\n"},
+    "same 2-line fix as the stray-end-tag TypeError")
+add("C18.reader.vtt", "TypeError@model.py:Span.push_child",
+    "WebVTT reader: <ruby> inside another tag (<i><ruby>): the Ruby element is pushed into a span, which only accepts span / br -> TypeError",
+    {"fmt": "vtt", "text": VC + "<i><ruby>\n"},
+    "medium: the model cannot nest ruby in a span; small stop-gap: log and treat <ruby> as an ordinary span unless the parent is the paragraph "
+    "(vtt/reader.py line 97-109); 3-4 lines")
+add("C18.reader.vtt", "AttributeError@vtt/reader.py:_TextCueParser._handle_endtag",
     "WebVTT reader: enough stray end tags walk the parent chain up to None; the next end tag calls None.parent()",
     {"fmt": "vtt", "text": VC + "</b></b></b></b>\n"},
     "same 2-line fix as the stray-end-tag TypeError")
-add("C18.reader.vtt", "AttributeError@vtt/reader.py:_make_span",
+add("C18.reader.vtt", "AttributeError@vtt/reader.py:_TextCueParser._make_span",
     "WebVTT reader: three stray end tags then text or a start tag: self.parent is None in _make_span",
     {"fmt": "vtt", "text": VC + "</b></b></b>x\n"},
     "same 2-line fix as the stray-end-tag TypeError")
-add("C18.reader.vtt", "AttributeError@vtt/reader.py:_handle_starttag",
+add("C18.reader.vtt", "AttributeError@vtt/reader.py:_TextCueParser._handle_starttag",
     "WebVTT reader: <rt> outside <ruby>: self.ruby_rtc is None and None.push_child is called",
     {"fmt": "vtt", "text": VC + "<rt>\n"},
     "small: treat <rt> without an open ruby as an ordinary/unknown tag (vtt/reader.py line 111-115); 2-3 lines")
-add("C18.reader.vtt", "RuntimeError@model.py:push_child",
+add("C18.reader.vtt", "RuntimeError@model.py:Ruby.push_child",
     "WebVTT reader: any tag other than <rt> (or a time stamp) directly inside <ruby> is pushed with Ruby.push_child, which always raises "
     "RuntimeError('Ruby children must be added using `push_children`'); RuntimeError is not one of the documented input-format errors",
     {"fmt": "vtt", "text": VC + "<ruby><b>\n"},
     "medium: needs a decision how <ruby><b>x</b><rt>..</rt></ruby> maps to rb; a small stop-gap is to wrap the span in an Rb pushed to ruby_rbc as _handle_string does")
-add("C18.reader.vtt", "RuntimeError@vtt/reader.py:_handle_starttag",
+add("C18.reader.vtt", "RuntimeError@vtt/reader.py:_TextCueParser._handle_starttag",
     "WebVTT reader: nested <ruby> raises a deliberate RuntimeError('Nested ruby tags are not allowed.'); the documented failure types are "
     "ValueError / parse errors, so callers catching those miss it",
     {"fmt": "vtt", "text": VC + "<ruby><ruby>\n"},
     "small: raise ValueError instead (vtt/reader.py line 99) or log and ignore the inner tag; 1 line")
 
 # ---------------------------------------------------------------------------------------------------- SCC reader
-add("C18.reader.scc", "AttributeError@scc/context.py:backspace",
+add("C18.reader.scc", "AttributeError@scc/context.py:SccContext.backspace",
     "SCC reader: a Backspace (BS, 94a1) when no caption is being built (e.g. right after RDC, or in roll-up before any text): get_caption_to_process() "
     "returns None and .get_current_text() is called on it",
     {"fmt": "scc", "text": "00:02:53:14\t9429 94a1\n"},
     "small: return early in SccContext.backspace when get_caption_to_process() is None (scc/context.py line 162-166); 3 lines")
-add("C18.reader.scc", "AttributeError@scc/context.py:process_control_code",
+add("C18.reader.scc", "AttributeError@scc/context.py:SccContext.process_control_code",
     "SCC reader: a Tab Offset (TO1..TO3, 97a1/97a2/9723) when no caption is being built: None.indent_cursor",
     {"fmt": "scc", "text": "00:02:53:14\t9429 97a1\n"},
     "small: guard the three TOx branches (scc/context.py lines 384-391) against a None caption; 3-6 lines")
@@ -95,45 +108,51 @@ add("C18.reader.stl", "ZeroDivisionError@stl/reader.py:to_model",
     "STL reader: GSI TNB = 00000 (or any value parsing to 0): the progress callback argument i / m.get_tti_count() divides by zero at the first TTI block",
     {"fmt": "stl", "build": "stl_gsi(TNB='00000') + stl_tti()"},
     "small: guard the division (stl/reader.py line 68), e.g. progress only when the count is positive; 1-2 lines")
-add("C18.reader.stl", "AttributeError@stl/datafile.py:process_tti_block",
+add("C18.reader.stl", "AttributeError@stl/datafile.py:DataFile.process_tti_block",
     "STL reader: the first TTI block has cumulative status CS=2/3 (or CS outside 0..3), or its SN equals the initial None-compare in a way that skips the "
     "paragraph creation: cur_p_element is still None and .push_child / .set_begin is called on it",
     {"fmt": "stl", "build": "stl_gsi() + stl_tti(cs=2)"},
     "small: create the paragraph whenever cur_p_element is None (stl/datafile.py line 476 condition), or skip the block with an error log; 2-4 lines")
-add("C18.reader.stl", "AttributeError@stl/datafile.py:__init__",
+add("C18.reader.stl", "AttributeError@stl/datafile.py:DataFile.__init__",
     "STL reader with program_start_tc='TCP': an invalid GSI TCP field reaches the except branch, whose log call reads self.gsi.tcp (lower case; the field "
     "is TCP) -> AttributeError instead of the intended fallback to 0",
     {"fmt": "stl", "cfg": 1, "build": "stl_gsi(TCP='        ')"},
     "trivial: self.gsi.tcp -> self.gsi.TCP (stl/datafile.py line 356); 1 line")
-add("C18.reader.stl", "ZeroDivisionError@stl/datafile.py:process_tti_block",
+add("C18.reader.stl", "ZeroDivisionError@stl/datafile.py:DataFile.process_tti_block",
     "STL reader with max_row_count='MNR' on an open-subtitle file (DSC not 1/2): GSI MNR = 00 gives max_row_count 0 and (VP - 1) / max_row_count "
     "divides by zero",
     {"fmt": "stl", "cfg": 1, "build": "stl_gsi(DSC='0', MNR='00') + stl_tti()"},
     "small: reject MNR < 1 like an invalid MNR (stl/datafile.py lines 367-373); 2-3 lines")
-add("C18.reader.stl", "AttributeError@stl/datafile.py:get_max_row_count",
+add("C18.reader.stl", "AttributeError@stl/datafile.py:DataFile.get_max_row_count",
     "STL reader with max_row_count='MNR' on an open-subtitle file: an invalid GSI MNR field reaches the except branch, which assigns the default to "
     "self.start_offset instead of self.max_row_count; the attribute max_row_count is never set and the first TTI block that is not skipped (TCI >= 23 s, the bogus start offset) fails",
     {"fmt": "stl", "cfg": 1, "build": "stl_gsi(DSC='0', MNR='  ') + stl_tti(tci=(0, 1, 0, 0), tco=(0, 1, 2, 0))"},
     "trivial: self.start_offset = DEFAULT_TELETEXT_ROWS -> self.max_row_count = DEFAULT_TELETEXT_ROWS (stl/datafile.py line 373); 1 line")
 
 # ---------------------------------------------------------------------------------------------------- IMSC reader
-add("C18.reader.ttml", "KeyError@imsc/style_properties.py:extract",
-    "IMSC reader: an unknown keyword for any enumerated style property (tts:direction, display, displayAlign, fontStyle, fontWeight, multiRowAlign, overflow, "
-    "rubyAlign, rubyPosition, rubyReserve position, showBackground, textAlign, textCombine, unicodeBidi, visibility, wrapOption, writingMode) is looked up "
-    "with Enum[...] and raises KeyError; the callers catch ValueError only, so the whole read fails instead of the attribute being ignored",
-    {"fmt": "ttml", "text": "<tt NS><head><layout><region xml:id=\"r1\" tts:showBackground=\"\"/></layout></head></tt>"},
-    "small: catch (ValueError, KeyError) in the four per-attribute handlers of imsc/elements.py (lines 606, 679, 763, 792); 4 lines")
-add("C18.reader.ttml", "IndexError@imsc/attributes.py:extract",
+for _cls, _attr in (("Direction", "tts:direction"), ("Display", "tts:display"), ("DisplayAlign", "tts:displayAlign"), ("FontStyle", "tts:fontStyle"),
+                    ("FontWeight", "tts:fontWeight"), ("MultiRowAlign", "ebutts:multiRowAlign"), ("Overflow", "tts:overflow"), ("RubyAlign", "tts:rubyAlign"),
+                    ("RubyPosition", "tts:rubyPosition"), ("RubyReserve", "tts:rubyReserve"), ("ShowBackground", "tts:showBackground"),
+                    ("TextAlign", "tts:textAlign"), ("TextCombine", "tts:textCombine"), ("UnicodeBidi", "tts:unicodeBidi"), ("Visibility", "tts:visibility"),
+                    ("WrapOption", "tts:wrapOption"), ("WritingMode", "tts:writingMode")):
+  add("C18.reader.ttml", f"KeyError@imsc/style_properties.py:StyleProperties.{_cls}.extract",
+      f"IMSC reader: an unknown keyword for the enumerated style property {_attr} is looked up with Enum[...] and raises KeyError; the callers catch "
+      "ValueError only, so the whole read fails instead of the attribute being ignored (one defect pattern shared by the 17 enumerated properties: direction, "
+      "display, displayAlign, fontStyle, fontWeight, multiRowAlign, overflow, rubyAlign, rubyPosition, rubyReserve, showBackground, textAlign, textCombine, "
+      "unicodeBidi, visibility, wrapOption, writingMode)",
+      {"fmt": "ttml", "text": f"<tt NS><body {_attr}=\"zzz\"/></tt>"},
+      "small, one fix for all 17: catch (ValueError, KeyError) in the four per-attribute handlers of imsc/elements.py (lines 606, 679, 763, 792); 4 lines")
+add("C18.reader.ttml", "IndexError@imsc/attributes.py:ExtentAttribute.extract",
     "IMSC reader: tts:extent on <tt> with a single component: ExtentAttribute.extract indexes s[1] without checking the number of components",
     {"fmt": "ttml", "text": "<tt NS tts:extent=\"1em\"/>"},
     "small: check len(s) == 2 and log an error otherwise (imsc/attributes.py line 156-160); 3 lines")
-add("C18.reader.ttml", "TypeError@imsc/elements.py:process",
+add("C18.reader.ttml", "TypeError@imsc/elements.py:ContentElement.ParsingContext.process",
     "IMSC reader: a child of a timeContainer=\"seq\" element that follows a sibling with an indefinite end (e.g. an untimed <p> with text): "
     "parent_ctx.implicit_end is None and None - Fraction is computed",
     {"fmt": "ttml", "text": "<tt NS><body><div timeContainer=\"seq\"><p>hello</p><p/></div></body></tt>"},
     "small-medium: when the previous sibling of a seq container never ends the following children can never begin: skip them "
     "(imsc/elements.py line 829); 3-5 lines")
-add("C18.reader.ttml", "TypeError@model.py:set_space",
+add("C18.reader.ttml", "TypeError@model.py:ContentElement.set_space",
     "IMSC reader: a <set> element with content-element children: SetElement ignores xml:space, so its context's space is None and the child inherits "
     "None -> set_space(None) raises TypeError",
     {"fmt": "ttml", "text": "<tt NS><body><set><p/></set></body></tt>"},
@@ -143,7 +162,7 @@ add("C18.reader.ttml", "ZeroDivisionError@imsc/utils.py:parse_time_expression",
     "IMSC reader: ttp:frameRate=\"0\" (or ttp:tickRate=\"0\") is accepted and the first frame / tick time expression divides by zero",
     {"fmt": "ttml", "text": "<tt NS ttp:frameRate=\"0\"><body><div begin=\"10f\"/></body></tt>"},
     "small: reject a zero frame rate / tick rate in FrameRateAttribute / TickRateAttribute.extract (imsc/attributes.py lines 236-252, 338-376); 4-6 lines")
-add("C18.reader.ttml", "ZeroDivisionError@imsc/attributes.py:extract",
+add("C18.reader.ttml", "ZeroDivisionError@imsc/attributes.py:FrameRateAttribute.extract",
     "IMSC reader: ttp:frameRateMultiplier with a zero denominator (\"1 0\") -> Fraction(1, 0)",
     {"fmt": "ttml", "text": "<tt NS ttp:frameRateMultiplier=\"1 0\"/>"},
     "small: catch ZeroDivisionError as AspectRatioAttribute does (imsc/attributes.py line 370); 3 lines")
@@ -154,7 +173,7 @@ add("C18.reader.ttml", "RecursionError@imsc/elements.py:from_xml",
     "not small: needs an explicit depth limit (raise ValueError beyond N levels, ~5 lines) or an iterative traversal")
 
 # ---------------------------------------------------------------------------------------------------- ISD
-add("C18.isd", "ValueError@model.py:push_children",
+add("C18.isd", "ValueError@model.py:Ruby.push_children",
     "ISD.from_model: a ruby container whose text annotation (rt / rtc) is temporally inactive at the snapshot time, or empty, while its base is active: the "
     "surviving children no longer satisfy Ruby.push_children and ValueError escapes (also listed under C01)",
     {"fmt": "ttml", "text": "<tt NS><body><div><p><span tts:ruby=\"container\"><span tts:ruby=\"base\">B</span><span tts:ruby=\"text\" begin=\"2s\" end=\"4s\">T</span>"
@@ -168,24 +187,65 @@ add("C18.isd", "ValueError@isd.py:_compute_length",
     "small: pass the computed font size as em reference in the Disparity processor (isd.py StyleProcessors.Disparity.compute); few lines")
 
 # ---------------------------------------------------------------------------------------------------- writers
-add("C18.writer.srt", "ValueError@srt/paragraph.py:to_string",
+add("C18.writer.srt", "ValueError@srt/paragraph.py:SrtParagraph.to_string",
     "SRT writer: an interval shorter than a millisecond (begin and end round to the same time code) -> ValueError('SRT paragraph end time code must be "
     "greater than the begin time code.')",
     {"fmt": "ttml", "text": "<tt NS><body><div><p begin=\"1s\" end=\"1.0001s\">Hello</p></div></body></tt>"},
     "small: drop (or extend to 1 ms) cues whose rounded end <= begin in SrtContext before to_string (srt/writer.py add_isd / srt/paragraph.py line 89); 3-5 lines")
-add("C18.writer.vtt", "ValueError@vtt/cue.py:to_string",
+add("C18.writer.vtt", "ValueError@vtt/cue.py:VttCue.to_string",
     "WebVTT writer: an interval shorter than a millisecond -> ValueError('VTT paragraph end time code must be greater than the begin time code.')",
     {"fmt": "ttml", "text": "<tt NS><body><div><p begin=\"1s\" end=\"1.0001s\">Hello</p></div></body></tt>"},
     "small: as for SRT (vtt/writer.py add_isd / vtt/cue.py line 125); 3-5 lines")
-add("C18.writer.imsc", "ValueError@time_code.py:from_seconds",
+add("C18.writer.imsc", "ValueError@time_code.py:ClockTime.from_seconds",
     "IMSC writer on a document returned by the SCC reader: paint-on text before the caption's begin gives spans with a NEGATIVE begin offset "
     "(e.g. -1 s relative to the paragraph); ClockTime.from_seconds rejects negative values",
     {"fmt": "scc", "text": "00:00:01:00\t9429 2080 942f\n00:00:02:00\t942f 942f\n"},
     "the defect is in the SCC reader (scc/caption_paragraph.py to_paragraph computes span begin - paragraph begin without clamping at 0); small there: "
     "max(0, ...) ; 1-2 lines")
+add("C18.filtered.writer.srt", "ValueError@model.py:Ruby.push_children",
+    "read -> LCD filter -> SRT writer: the ruby defect of C18.isd, reached only after the filter has removed tts:display=\"none\" from the region "
+    "(before filtering the region is never shown, so the unfiltered snapshots do not meet the ruby)",
+    {"fmt": "ttml", "text": "<tt NS><head><layout><region xml:id=\"r1\" tts:display=\"none\"/></layout></head><body><div><p><span tts:ruby=\"container\">"
+                            "<span tts:ruby=\"baseContainer\"><span tts:ruby=\"base\">B2</span></span><span tts:ruby=\"textContainer\" end=\"3s\"/></span></p></div></body></tt>"},
+    "same fix as C18.isd ValueError@model.py:push_children")
+add("C18.filtered.writer.srt", "ValueError@srt/paragraph.py:SrtParagraph.to_string",
+    "read -> LCD filter -> SRT writer: the sub-millisecond interval defect of C18.writer.srt, on content that is hidden (tts:visibility=\"hidden\") before "
+    "the filter removes the property",
+    {"fmt": "ttml", "text": "<tt NS><body><div><p begin=\"5s\" end=\"5.0001s\" tts:visibility=\"hidden\">short</p></div></body></tt>"},
+    "same fix as C18.writer.srt ValueError@srt/paragraph.py:to_string")
+add("C18.filtered.writer.vtt", "ValueError@vtt/cue.py:VttCue.to_string",
+    "read -> LCD filter -> WebVTT writer: the sub-millisecond interval defect of C18.writer.vtt, on content hidden before filtering",
+    {"fmt": "ttml", "text": "<tt NS><body><div><p begin=\"5s\" end=\"5.0001s\" tts:visibility=\"hidden\">short</p></div></body></tt>"},
+    "same fix as C18.writer.vtt ValueError@vtt/cue.py:to_string")
+
+DEEP = {"fmt": "srt", "text": TC + "@OPEN@x\n", "repeat": {"open": "<i>", "close": "", "n": 1500}}
+for _clause in ("C18.isd", "C18.writer.srt", "C18.writer.vtt", "C18.writer.imsc", "C18.lcd"):
+  add(_clause, "RecursionError(deeply nested document)",
+      "a document nested several hundred levels deep (the SRT and WebVTT readers build it iteratively from e.g. 1500 unclosed <i> tags; the IMSC reader "
+      "itself overflows, see C18.reader.ttml) overflows the recursion of every tree walk downstream: ISD.significant_times / _process_element / "
+      "_copy_content_element, the style and animation filters, ContentElement.dfs_iterator and the writers; reported once per document under the first stage "
+      "that fails (the discriminator is deliberately the same for all walks)",
+      DEEP,
+      "not small in the walks themselves; the maintainable fix is a nesting limit in the readers (ValueError beyond e.g. 64 levels; ~3 lines per reader)")
 
 
 def main():
+  # every entry is executed against the current tree (tools/c18_repro.py): what no longer reproduces is recorded as fixed (suppresses nothing)
+  import sys
+  sys.argv = sys.argv[:1] + sys.argv[1:2]
+  sys.path.insert(0, os.path.dirname(os.path.abspath(__file__)))
+  import c18_repro
+  for k in F:
+    c18_repro.CLAUSE[0] = k["clause"]
+    got = None
+    try:
+      c18_repro.stage(k["clause"], k["witness"])
+    except BaseException as e:  # pylint: disable=broad-except
+      got = c18_repro.disc_of(e)
+    if got != k["disc"]:
+      k["status"] = "fixed"
+      k["fix_hint"] = "no longer reproduces on the current tree (observed: " + str(got) + "); was: " + k["fix_hint"]
+      print("not reproduced -> recorded as fixed:", k["clause"], k["disc"], "observed", got)
   out = os.path.join(os.path.dirname(os.path.dirname(os.path.abspath(__file__))), "known_findings.d", "C18.json")
   with open(out, "w", encoding="utf-8") as f:
     json.dump({"findings": F}, f, indent=1, ensure_ascii=False)
